@@ -6,12 +6,13 @@ context, time comparisons that came out true) and at the public getters.
 """
 from __future__ import annotations
 
-from ..closure import FOREVER, close
+from ..closure import FOREVER, close, numeric_slots
 from ..interp import AbsRaise, Interp
 from ..smworld import StateSpec, build_class, instantiate
-from ..values import Ext, Obj, Sym
+from ..values import App, Ext, Lin, Obj, Sym
 
 MODULE = "magicbot.state_machine"
+ABSENT = "<absent>"
 API = {"engage", "done", "next_state", "next_state_now", "execute", "on_enable", "on_disable", "on_iteration"}
 
 
@@ -51,7 +52,9 @@ class SMHooks:
         if f.name in API and f.owner is not None and f.module.name == MODULE:
             ctx = self.origin
             self.stack.append((f, self.origin))
-            self.origin = "engine"
+            # calls made by the iteration logic itself are 'engine'; thin public wrappers
+            # (next_state_now, on_disable, engage) pass their caller's context on
+            self.origin = "engine" if f.name in ("execute", "on_iteration") else ctx
             args = tuple(v for k, v in list(vals.items())[1:])
             if f.name == "execute":
                 self.exec_depth += 1
@@ -69,9 +72,15 @@ class SMHooks:
             else:
                 self.events.append(("ret", f.name, None))
 
+    def on_event(self, it, ev):
+        if ev.kind == "clock":
+            self.events.append(("clock", ev.extra, self.exec_depth))
+
     def on_decide(self, it, atom, val, node):
+        if atom[0] == "lt0" and not val:
+            self.events.append(("cmp_false", it.site(node) if node is not None else None, atom[2]))
         if atom[0] == "lt0" and val:
-            self.events.append(("cmp_true", it.site(node) if node is not None else None))
+            self.events.append(("cmp_true", it.site(node) if node is not None else None, atom[2]))
 
     def decide(self, it, atom, node):
         """C01.O1: a term at least FOREVER (1e9 s) away from the others never changes sign."""
@@ -96,7 +105,7 @@ class SMHooks:
         names = [p for p, _ in meta["params"]]
         vals = dict(zip(names, args))
         name = meta["name"]
-        self.events.append(("run", name, vals.get("tm"), vals.get("state_tm"), vals.get("initial_call"), self.exec_depth, it.site(node)))
+        self.events.append(("run", name, vals.get("tm", ABSENT), vals.get("state_tm", ABSENT), vals.get("initial_call", ABSENT), self.exec_depth, it.site(node)))
         spec = self.specs.get(name)
         machine = vals.get("self")
         if spec is None or spec.kind == "default" or not isinstance(machine, Obj):
@@ -149,6 +158,24 @@ def sm_actions(specs, base):
     return acts
 
 
+def client_actions(specs, base):
+    acts = sm_actions(specs, base)
+
+    def actions(w, g):
+        if base != "StateMachine":
+            # client bounds (DESIGN.md appendix A): the selector never calls on_iteration() before the first
+            # on_enable(), and never calls on_enable() on a mode that is still running (on_disable() comes first)
+            out = acts
+            if not g["enabled_once"]:
+                out = [a for a in out if a[0] != "on_iteration"]
+            if g["armed"]:
+                out = [a for a in out if a[0] != "on_enable"]
+            return out
+        return acts
+
+    return actions
+
+
 def run_sm_action(it: Interp, world, action):
     m = world["machine"]
     name = action[0]
@@ -165,6 +192,12 @@ def make_world(program, specs, base, configure):
     configure(it)
     cls, wrappers = build_class(it, MODULE, base, specs)
     m = instantiate(it, cls)
+    # injected by MagicRobot (declared on the class): a third-party logger whose calls are ignorable events
+    m.fields["logger"] = Ext("logging.getLogger(<component name>)", "lib", role="instance")
+    for sp in specs:
+        if sp.kind == "timed":
+            # as if the duration topic had been edited before entry: differs from the decorator value
+            m.fields["$tunable:" + sp.name + "_duration"] = Sym("ntdur_" + sp.name, "num", tag="duration", uid=0)
     if base == "StateMachine" or True:
         cls.mutable = False  # nothing writes the class after construction (checked: class_write events)
     return {"machine": m}, it
@@ -175,7 +208,7 @@ def configure(it):
     it.tunable_cells = True
 
 
-GHOST0 = {"eng": False, "last": None, "interv": True, "fresh": None, "was_running": False, "cs_prev": None, "armed": False}
+GHOST0 = {"eng": False, "last": None, "interv": True, "fresh": None, "was_running": False, "cs_prev": None, "armed": False, "enabled_once": False}
 
 
 class SMMonitor:
@@ -188,6 +221,7 @@ class SMMonitor:
         self.specs = {s.name: s for s in specs}
         self.base = base
         self.first = [s.name for s in specs if s.first][0]
+        self.timing = TimingMonitor(specs, base)
 
     def regular(self, s):
         sp = self.specs[s]
@@ -211,6 +245,7 @@ class SMMonitor:
         name = action[0]
         L = {"in_iter": False}
         iter_api = "on_iteration" if auto else "execute"
+        self.timing(action, events, world, err, not g["was_running"])
         for ev in events:
             k = ev[0]
             if k == "call":
@@ -226,6 +261,7 @@ class SMMonitor:
                     if auto:
                         g["armed"] = False
                 if api == "on_enable" and ctx == "client" and auto:
+                    g["enabled_once"] = True
                     g["armed"] = True
                     g["was_running"] = False
                 if api == "next_state":
@@ -281,10 +317,10 @@ class SMMonitor:
                 if auto and not L["armed_at_start"]:
                     err("C13.M2", f"state '{S}' ran after the autonomous machine had finished / before on_enable()", site)
                 exp_ic = (g["last"] != S) or g["interv"]
-                if ic is not exp_ic:
+                if ic is not ABSENT and ic is not exp_ic:
                     err("C03.M1", f"state '{S}' called with initial_call={ic!r}, expected {exp_ic} (last state run: {g['last']}, transition/done since: {g['interv']})", site)
                 if not self.is_default(S):
-                    if L["need_zero"] and not L["cycled"]:
+                    if L["need_zero"] and not L["cycled"] and tm is not ABSENT:
                         if not (isinstance(tm, int) and not isinstance(tm, bool) and tm == 0):
                             err("C04.M4", f"first call of '{S}' after the machine (re)started received tm={tm!r}, expected exactly 0", site)
                     L["need_zero"] = False
@@ -307,7 +343,8 @@ class SMMonitor:
 
     def end_iteration(self, g, L, obs, err, auto):
         if L["eng0"] and (not auto or L["armed_at_start"]):
-            if L["runs"] != 1 + L["nows"]:
+            if L["runs"] != 1 + L["nows"] and not (auto and L["engine_done"] and L["runs"] == 0):
+                # (an autonomous machine whose last state expires finishes in that iteration without running anything)
                 err("C01.M2" if not auto else "C13.M1", f"engaged iteration ran {L['runs']} state function(s), expected {1 + L['nows']} (1 + {L['nows']} next_state_now)")
         running = L["last_run_regular"] and not L["done_after"]
         ie, cs = obs["is_executing"], obs["current_state"]
@@ -324,6 +361,171 @@ class SMMonitor:
             g["armed"] = False
 
 
+
+def _lin(v):
+    try:
+        return Lin.of(v)
+    except TypeError:
+        return None
+
+
+class TimingMonitor:
+    """C02.T1-T5 / C03.T1-T2 on every transition the closure explores.  Between client calls every
+    stored number is an opaque per-slot symbol, so each path is checked for *all* pre-state
+    values at once; roles (machine start, per-state entry time and expiry) are inferred from
+    the observable sinks (arguments of the state functions, the strict comparison that
+    precedes an engine transition), not from field names."""
+
+    def __init__(self, specs, base):
+        self.specs = {s.name: s for s in specs}
+        self.base = base
+        self.role_f0 = None
+        self.role_f1 = {}
+        self.role_f2 = {}
+        self.n_checked = 0
+
+    def __call__(self, action, events, world, err, need_zero0):
+        slots = numeric_slots(world)
+        changed = {p for p, v in slots.items() if not (isinstance(v, Sym) and v.name in ("old:" + p, "forever:" + p))}
+        iter_api = "on_iteration" if self.base != "StateMachine" else "execute"
+        in_iter = False
+        clocks = {}
+        depth = 0
+        last_lin = None
+        cause = {}
+        entries = {}
+        restarted = need_zero0
+        cycled = False
+        engine_done = False
+        first = [s.name for s in self.specs.values() if s.first][0]
+        m = world["machine"]
+        for ev in events:
+            k = ev[0]
+            if k == "call":
+                _, api, args, ctx, d, owner = ev
+                if api == "execute":
+                    depth = d
+                    if d == 1:
+                        in_iter = True
+                if api == "next_state" and in_iter:
+                    tgt = args[0] if args else None
+                    tgt = tgt.fields.get("name") if isinstance(tgt, Obj) else tgt
+                    if ctx == "engine":
+                        if last_lin is None:
+                            err("C02.T1", f"the engine moved to state '{tgt}' in an iteration without a strict 'expiry < tm' comparison having come out true on that path")
+                        cause[tgt] = ("expiry", last_lin) if last_lin is not None else ("request",)
+                        if engine_done and tgt == first:
+                            cycled = True
+                    else:
+                        cause[tgt] = ("request",)
+                if api == "done" and in_iter and ctx == "engine":
+                    engine_done = True
+            elif k == "ret" and ev[1] == "execute":
+                depth = ev[2] - 1
+                if depth == 0:
+                    in_iter = False
+            elif k == "clock":
+                clocks.setdefault(ev[2], ev[1])
+            elif k == "cmp_true" and in_iter:
+                last_lin = ev[2]
+            elif k == "run" and in_iter:
+                _, S, tm, stm, ic, d, site = ev
+                if S not in self.specs:
+                    continue
+                if ic is not ABSENT and not isinstance(ic, bool):
+                    err("C03.A4", f"state '{S}' received a non-boolean initial_call: {ic!r}", site)
+                tmL = None if tm is ABSENT else (_lin(tm) if not isinstance(tm, bool) else "bad")
+                stmL = None if stm is ABSENT else (_lin(stm) if not isinstance(stm, bool) else "bad")
+                if tmL == "bad" or stmL == "bad" or (tm is not ABSENT and tmL is None) or (stm is not ABSENT and stmL is None):
+                    err("C03.A4", f"state '{S}' received non-numeric tm/state_tm: tm={tm!r} state_tm={stm!r}", site)
+                    continue
+                self.n_checked += 1
+                if tmL is None or stmL is None:
+                    # the state does not declare both time parameters: check what it does declare
+                    if stmL is not None and ic is True and cause.get(S, ("request",))[0] != "expiry" and not (self.specs[S].kind == "default" and last_lin is not None) and stmL != Lin(0):
+                        err("C03.T2", f"state '{S}' received state_tm={stm!r} on its initial call after being entered by request; expected 0", site)
+                    if stmL is not None and ic is True and cause.get(S, ("request",))[0] == "expiry" and stmL.add(cause[S][1]) != Lin(0):
+                        err("C02.T2", f"state '{S}' entered by expiry received state_tm={stm!r}; expected tm minus the predecessor's expiry", site)
+                    if tmL is not None and self.specs[S].kind != "default":
+                        now = clocks.get(d)
+                        if now is None or not any(p.count(".") == 2 and p.startswith("w.machine.") and "[" not in p and _lin(v) is not None and Lin.of(now).add(_lin(v), -1) == tmL for p, v in slots.items()):
+                            err("C03.T1", f"state '{S}' received tm={tm!r}: not the time elapsed since a stored machine start instant", site)
+                    if ic is True:
+                        cause.pop(S, None)
+                    continue
+                start_abs = tmL.add(stmL, -1)
+                is_default = self.specs[S].kind == "default"
+                if ic is True:
+                    c = cause.get(S, ("request",))
+                    if c[0] == "expiry":
+                        if stmL.add(c[1]) != Lin(0):  # state_tm == tm - expiry(predecessor) == -(expiry - tm)
+                            err("C02.T2", f"state '{S}' entered by expiry of its predecessor received state_tm={stm!r}; expected tm minus the predecessor's expiry ({c[1].scale(-1)!r}), i.e. its clock must start at the predecessor's expiry", site)
+                    elif is_default and last_lin is not None and stmL.add(last_lin) == Lin(0):
+                        pass  # fallback to the default state in the iteration that noticed an expiry: clock from that expiry
+                    else:
+                        if stmL != Lin(0):
+                            err("C03.T2", f"state '{S}' received state_tm={stm!r} on its initial call after being entered by request/engage/fallback; expected 0", site)
+                    entries[S] = (start_abs, site)
+                    cause.pop(S, None)
+                elif ic is False:
+                    ok = False
+                    sa = start_abs.simplify()
+                    if isinstance(sa, Sym) and (sa.name.startswith("old:") or sa.name.startswith("forever:")):
+                        slot = sa.name.split(":", 1)[1]
+                        want = self.role_f1.get(S)
+                        ok = want is None or slot in want
+                    if not ok:
+                        err("C03.T2", f"state '{S}' received state_tm={stm!r} with tm={tm!r} on a consecutive call; tm - state_tm must be the entry time recorded at its initial call", site)
+                # machine time
+                if not is_default:
+                    now = clocks.get(d)
+                    if now is None:
+                        err("C03.T1", f"state '{S}' ran in an execute() that did not read the clock", site)
+                    else:
+                        cands = [p for p, v in slots.items() if p.count(".") == 2 and p.startswith("w.machine.") and "[" not in p and not p.split(".")[-1].startswith("$") and _lin(v) is not None and Lin.of(now).add(_lin(v), -1) == tmL]
+                        if self.role_f0 is not None:
+                            cands = [p for p in cands if p == self.role_f0]
+                        if not cands:
+                            err("C03.T1", f"state '{S}' received tm={tm!r}: not the time elapsed since a stored machine start instant (clock read {now!r})", site)
+                        elif self.role_f0 is None and len(cands) == 1:
+                            self.role_f0 = cands[0]
+        # ---- post-state of entered states: entry time and expiry
+        for S, (start_abs, site) in entries.items():
+            f1 = [p for p in changed if _lin(slots[p]) == start_abs and not (p.count(".") == 2 and "[" not in p)]
+            cell = m.fields.get("$tunable:" + S + "_duration")
+            f2 = []
+            for p in changed:
+                v = _lin(slots[p])
+                if v is None or (p.count(".") == 2 and "[" not in p):
+                    continue
+                diff = v.add(start_abs, -1)
+                if cell is not None:
+                    if diff == Lin.of(cell):
+                        f2.append(p)
+                else:
+                    if diff.is_const() and diff.const >= FOREVER:
+                        f2.append(p)
+            if not f1:
+                err("C02.T3", f"after the initial call of '{S}' no per-state record holds its entry time {start_abs.simplify()!r}", site)
+            else:
+                self.role_f1.setdefault(S, set()).update(f1)
+            if not f2:
+                want = "entry time + the current value of its duration tunable" if cell is not None else "entry time + a duration of at least 1e9 s (untimed state)"
+                err("C02.T2" if cell is not None else "C01.O1", f"after the initial call of '{S}' (entry time {start_abs.simplify()!r}) no per-state record holds its expiry = {want}", site)
+            else:
+                self.role_f2.setdefault(S, set()).update(f2)
+        # ---- who may write
+        for p in sorted(changed):
+            owner = None
+            for S in self.specs:
+                if f"[{S}]" in p:
+                    owner = S
+            if owner is not None and owner not in entries and (p in self.role_f1.get(owner, ()) or p in self.role_f2.get(owner, ())):
+                err("C02.T3", f"entry time / expiry of state '{owner}' ({p}) was rewritten by {action[0]}() without an initial call of that state")
+            if p == self.role_f0 and not (restarted or cycled):
+                err("C03.T1", f"the machine start instant ({p}) was rewritten by {action[0]}() although the machine neither (re)started nor cycled")
+
+
 def run_closure(program, tier, base="StateMachine"):
     results = []
     max_script = 1 if tier == "quick" else 2
@@ -331,9 +533,8 @@ def run_closure(program, tier, base="StateMachine"):
     for uname, specs in universes(tier, base)[: int(__import__("os").environ.get("VERIF_MAXU", "99"))]:
         world, it0 = make_world(program, specs, base, configure)
         mon = SMMonitor(specs, base)
-        acts = sm_actions(specs, base)
         r = close(
-            program, world, dict(GHOST0), lambda w, g: acts, run_sm_action, mon,
+            program, world, dict(GHOST0), client_actions(specs, base), run_sm_action, mon,
             lambda: SMHooks(specs, max_script, max_nest), configure=configure,
         )
         results.append((uname, specs, r))
